@@ -9,8 +9,10 @@ from common import case_line, parse_result
 from gen import medium_run, bound_text, sides, wellformed_bound, pick_side
 
 LEVEL = "proof"
+COUNTS = ["json"]        # modes of cases.count_thresholds
 BIG_IO = lambda a: "--json" in a        # which command lines of cases.rand_cli the large-input stream keeps
 SPECIALS = ['"', "\\", "\x00", "\x01", "\x08", "\x0c", "\r", "\t", "\x1f", "\x7f", " ", "😎", "a", "é", "\n"]
+SPECIALS += ["\x80", "\u07ff", "\u0800", "\u0fff", "\ud7ff", "\ue000", "\uffff", "\U00010000", "\U0010ffff", "\x1b", "\u2028"]
 
 
 def py_parts(rec, d, chars, bounds, n_override=None):
